@@ -328,3 +328,51 @@ Theorem C05_quantile_consistent_at_midpoint :
 Proof. exact quantile_consistent_at_midpoint. Qed.
 Print Assumptions C05_quantile_consistent_at_midpoint.
 
+
+(* ======================================================================== *)
+(* WEIGHTED samples, quantile scores (proofs/WeightedQuantile.v).  wlt / wle / wtot are the weighted
+   counts "< t", "<= t" and the total weight; t is a weighted a-quantile of S when
+   wlt S t <= a * wtot S <= wle S t.  Every such t minimises the weighted average of every homogeneous
+   quantile score (pinball loss included), and one always exists among the observations. *)
+From MD Require proofs.WeightedQuantile.
+
+Theorem C05_weighted_quantile_consistent :
+  forall (h a : R) (S : list (R * R)) (t c : R),
+       0 < a < 1 ->
+       S <> [] ->
+       Forall (fun e : R * R => 0 < snd e) S ->
+       Forall (fun e : R * R => dQ_h h (fst e)) S ->
+       dQ_h h t ->
+       dQ_h h c ->
+       WeightedQuantile.wlt S t <= a * WeightedQuantile.wtot S <= WeightedQuantile.wle S t ->
+       Consistency.wtotal (hqs_val h a) S t <= Consistency.wtotal (hqs_val h a) S c.
+Proof. exact WeightedQuantile.wquantile_consistent. Qed.
+Print Assumptions C05_weighted_quantile_consistent.
+
+Theorem C05_weighted_quantile_exists :
+  forall (a : R) (S : list (R * R)),
+       0 < a < 1 ->
+       S <> [] ->
+       Forall (fun e : R * R => 0 < snd e) S ->
+       exists e : R * R, In e S /\
+         WeightedQuantile.wlt S (fst e) <= a * WeightedQuantile.wtot S <= WeightedQuantile.wle S (fst e).
+Proof. exact WeightedQuantile.wq_exists. Qed.
+Print Assumptions C05_weighted_quantile_exists.
+
+Theorem C05_weighted_quantile_consistent_exists :
+  forall (h a : R) (S : list (R * R)),
+       0 < a < 1 ->
+       S <> [] ->
+       Forall (fun e : R * R => 0 < snd e) S ->
+       Forall (fun e : R * R => dQ_h h (fst e)) S ->
+       exists e : R * R, In e S /\
+         forall c : R, dQ_h h c ->
+           Consistency.wtotal (hqs_val h a) S (fst e) <= Consistency.wtotal (hqs_val h a) S c.
+Proof. exact WeightedQuantile.wquantile_consistent_exists. Qed.
+Print Assumptions C05_weighted_quantile_consistent_exists.
+
+(* weights matter: sample (1, w = 1), (2, w = 3), level 1/2 - the weighted median is 2, not 1 *)
+Theorem C05_weighted_quantile_example :
+  WeightedQuantile.is_wquantile (1 / 2) [(1, 1); (2, 3)] 2 /\ ~ WeightedQuantile.is_wquantile (1 / 2) [(1, 1); (2, 3)] 1.
+Proof. exact WeightedQuantile.wq_example. Qed.
+Print Assumptions C05_weighted_quantile_example.
